@@ -155,6 +155,7 @@ func genC01(r *Rng, tier string, idx int) *Plan {
 			p.Ops = append(p.Ops[:4], append([]Op{{ID: 9, Kind: "idp", Args: map[string]string{"refresh_deny": "true"}}, {ID: 10, Kind: "adv", D: life + 5}, {ID: 11, Kind: "send", Path: t, S: "own"}}, p.Ops[4:]...)...)
 		}
 	}
+	sprayReplicas(r, p, 0.4)
 	return p
 }
 
